@@ -7,12 +7,14 @@ PROP = "C03"
 
 def scenarios(rng, tier):
     out = []
-    n = 10 if tier == "quick" else 60
+    n = 13 if tier == "quick" else 68
     kinds = ["file-link", "file-copy", "dir-link", "dir-copy", "dir-recommit", "xdev-link", "checkout-link", "checkout-copy", "stage-add", "stage-remove",
-             "dir-recommit", "stage-symlink", "artifact-xdev", "two-stages", "checkout-copy-tmp-sibling"]
+             "dir-recommit", "stage-symlink", "artifact-xdev", "two-stages", "checkout-copy-tmp-sibling", "stage-add-many", "stage-remove-many",
+             "big-link"]
     for i in range(n):
         kind = kinds[i % len(kinds)] if tier == "thorough" else ["dir-link", "dir-recommit", "xdev-link", "file-copy", "checkout-copy", "stage-add",
-                                                                   "stage-symlink", "artifact-xdev", "two-stages", "checkout-copy-tmp-sibling"][i % 10]
+                                                                   "stage-symlink", "artifact-xdev", "two-stages", "checkout-copy-tmp-sibling",
+                                                                   "stage-add-many", "big-link", "stage-remove-many"][i % 13]
         init = []
         stages = []
         if kind == "artifact-xdev":
@@ -27,6 +29,12 @@ def scenarios(rng, tier):
             init = [("file", b"one.bin", "g:%d:%d" % (rng.randrange(100), rng.choice([5, 70000]))), ("dir", b"tree"),
                     ("file", b"tree/x.bin", "g:%d:9" % rng.randrange(100)), ("file", b"tree/y.bin", "g:%d:300" % rng.randrange(100))]
             stages = [(b"s1.yaml", dict(cmd=b"", wd=b".", out=[(b"one.bin", "")])), (b"s2.yaml", dict(cmd=b"", wd=b".", out=[(b"tree", "d")]))]
+        elif kind == "big-link":
+            # files of several MiB (stand-alone and inside a directory), default link commit, cache on the same file system
+            big = rng.choice([8 << 20, (8 << 20) + 1, 9 << 20])
+            init = [("file", b"big.bin", "g:%d:%d" % (rng.randrange(100), big)), ("dir", b"tree"),
+                    ("file", b"tree/large.bin", "g:%d:%d" % (rng.randrange(100), 8 << 20)), ("file", b"tree/small.bin", "g:%d:9" % rng.randrange(100))]
+            stages = [(b"s1.yaml", dict(cmd=b"", wd=b".", out=[(b"big.bin", "")])), (b"s2.yaml", dict(cmd=b"", wd=b".", out=[(b"tree", "d")]))]
         elif kind.startswith("file"):
             init = [("file", b"data.bin", "g:%d:%d" % (rng.randrange(100), rng.choice([0, 5, 70000])))]
             stages = [(b"s.yaml", dict(cmd=b"", wd=b".", out=[(b"data.bin", "")]))]
@@ -66,6 +74,23 @@ def scenarios(rng, tier):
         elif kind == "stage-remove":
             c["ops"] = [("commit", "l", [])]
             c["cmd"] = ["stage", "remove", "s.yaml"]
+        elif kind == "stage-add-many":
+            # several stage files named in ONE `stage add`: the index is its previous or its new version, never something between
+            c["extra_stages"] = []
+            for j in range(rng.choice([2, 3])):
+                init.append(("file", b"other%d.txt" % j, "g:%d:3" % j))
+                c["extra_stages"].append((b"t%d.yaml" % j, dict(cmd=b"", wd=b".", out=[(b"other%d.txt" % j, "")])))
+            c["ops"] = [("commit", "l", [])]
+            c["cmd"] = ["stage", "add"] + [sp.decode() for sp, _ in c["extra_stages"]]
+        elif kind == "stage-remove-many":
+            for j in range(2):
+                init.append(("file", b"other%d.txt" % j, "g:%d:3" % j))
+                stages.append((b"t%d.yaml" % j, dict(cmd=b"", wd=b".", out=[(b"other%d.txt" % j, "")])))
+            c["ops"] = [("commit", "l", [])]
+            c["cmd"] = ["stage", "remove", "t0.yaml", "s.yaml", "t1.yaml"][:rng.choice([3, 4])]
+        elif kind == "big-link":
+            c["cmd"] = ["commit"]
+            c["targets"] = []
         elif kind == "stage-symlink":
             c["symlink_stage"] = True            # s.yaml -> shared/s.yaml
             c["no_trace"] = True
@@ -107,8 +132,7 @@ def main(tier, replay=None):
         for c in scenarios(rng, tier):
             sc = s2.Scenario(dud, c, b3)
             try:
-                if "extra_stage" in c:
-                    sp, st = c["extra_stage"]
+                for sp, st in ([c["extra_stage"]] if "extra_stage" in c else []) + c.get("extra_stages", []):
                     sc.proj.write_stage(sp, st)
                     sc.proj.stage_paths.remove(sp)          # not in the index yet
                     sc.proj.stage_paths.append(sp)
@@ -141,7 +165,7 @@ def main(tier, replay=None):
                     if a != b:
                         import difflib
                         d = [l for l in difflib.unified_diff(b, a, "model", "implementation", lineterm="", n=1)][:30]
-                        R.violation(dict(kind="model-implementation-disagreement", stream="S2-trace", scenario=c["id"], case=s1eval.case_json({k: v for k, v in c.items() if k != "extra_stage"}), diff=d), nofail=True)
+                        R.violation(dict(kind="model-implementation-disagreement", stream="S2-trace", scenario=c["id"], case=s1eval.case_json({k: v for k, v in c.items() if k not in ("extra_stage", "extra_stages")}), diff=d), nofail=True)
                     else:
                         R.cov["traces_validated_against_impl"] += 1
                 # model trace (checkout scenarios): Sys.cmdCheckoutSegs
@@ -154,7 +178,7 @@ def main(tier, replay=None):
                     if a != b:
                         import difflib
                         d = [l for l in difflib.unified_diff(b, a, "model", "implementation", lineterm="", n=1)][:30]
-                        R.violation(dict(kind="model-implementation-disagreement", stream="S2-trace", scenario=c["id"], case=s1eval.case_json({k: v for k, v in c.items() if k != "extra_stage"}), diff=d), nofail=True)
+                        R.violation(dict(kind="model-implementation-disagreement", stream="S2-trace", scenario=c["id"], case=s1eval.case_json({k: v for k, v in c.items() if k not in ("extra_stage", "extra_stages")}), diff=d), nofail=True)
                     else:
                         R.cov["traces_validated_against_impl"] += 1
                 if outside:
@@ -179,7 +203,7 @@ def main(tier, replay=None):
                         R.violation(dict(kind="property-violated-on-implementation", scenario=c["id"], command=c["cmd"], kill_at=k, of=n,
                                          signal="SIGKILL" if sig is None else ("SIGTERM" if sig == 15 else "SIGINT"),
                                          trace=canon[max(0, k - 3):k + 1], violations=unknown[:4],
-                                         case=s1eval.case_json({k_: v_ for k_, v_ in c.items() if k_ != "extra_stage"})))
+                                         case=s1eval.case_json({k_: v_ for k_, v_ in c.items() if k_ not in ("extra_stage", "extra_stages")})))
                         break
                 R.sample(dict(scenario=c["id"], command=c["cmd"], calls=n, trace=canon[:12]), limit=3)
             finally:
